@@ -31,7 +31,7 @@ def fill(check, NA):
           "every series table entry (compiled program run in 60-digit arithmetic through sxvm, conformance-gated bitwise against CasADi) vs the exact function on a lattice from 0 and denormals to 1 and on both "
           "adjacent doubles of its own switch; every consumer (exp/log of 9 groups, so3/se3/se23 Jacobians and inverses) in double vs 50-digit references, jump across each harvested switch, "
           "and finiteness of casadi.jacobian at and around zero",
-          "trusted: mpmath; double round-off of the table coefficients themselves is not judged; K01 (log AD at identity) is an open known finding",
+          "trusted: mpmath; double round-off of the table coefficients themselves is not judged",
           "bounded exhaustive lattice enumeration + signature-flip bisection on the compiled programs, multi-domain interpretation of the real instruction list", "DESIGN.md section 4 C06")
 
     check("C07", "exploration",
